@@ -29,6 +29,7 @@ type c10Case struct {
 	Missing  []int `json:"missing,omitempty"` // entry indices (saved) whose file is missing; negative: corrupted
 	VolGone  []int `json:"volgone,omitempty"` // volumes (1-based) absent
 	BadVol   int   `json:"badvol,omitempty"`  // volume (1-based) whose parity data is wrong but whose hashes are valid (0 none)
+	Filler   int   `json:"filler,omitempty"`  // this many additional NON-saved entries (files not in the parity set) are listed after the others
 	DC       bool  `json:"dc,omitempty"`
 }
 
@@ -137,6 +138,15 @@ func c10ReadDir(c *c10Case, r *core.Rec) {
 		if e.Saved() {
 			savedIdx = append(savedIdx, i)
 			savedData = append(savedData, d)
+		}
+	}
+	for k := 0; k < c.Filler; k++ {
+		nm := fmt.Sprintf("extra-%03d.txt", k)
+		d := []byte(nm)
+		e := rpar1.MakeEntry(nm, d, false)
+		entries = append(entries, e)
+		if k%2 == 0 {
+			fs.Put(path.Join("/d", nm), d)
 		}
 	}
 	var comment []byte
@@ -314,6 +324,15 @@ func c10Gen(g *core.Gen) {
 	for _, v := range []int{98, 99} {
 		g.Emit(&c10Case{Dir: "write", Sizes: []int{5, 8, 2}, Names: c10NameSets[0][:3], Volumes: v})
 	}
+	// reader direction: many listed files of which only a few are in the parity set (file counts around 99, 255, 256, 300)
+	for _, filler := range []int{90, 96, 97, 98, 150, 250, 251, 252, 253, 254, 255, 300} {
+		for _, st := range [][]int{{1, 1, 1}, {1, 0, 3, 1}, {1}} {
+			for _, miss := range [][]int{nil, {0}} {
+				g.Emit(&c10Case{Dir: "read", Status: st, Comment: filler % 4, NameSet: filler % len(c10NameSets), Missing: miss, Filler: filler, DC: filler%2 == 0})
+				g.Emit(&c10Case{Dir: "read", Status: st, Comment: 0, NameSet: 0, Missing: miss, VolGone: []int{1}, Filler: filler})
+			}
+		}
+	}
 	// reader direction
 	maxEntries := 4
 	if g.Thorough() {
@@ -385,7 +404,7 @@ func init() {
 		ID:    "C10",
 		Level: "model_checking",
 		Rule: "writer direction: full product 1-4 files x sizes {0,1,2,5,9} x volumes {1,2,3,10} with ASCII / Latin-1 / CJK / astral names, plus >16 KiB files and 98/99 volumes; every file gopar writes is parsed by the strict reference reader (header, offsets, control hash, set hash, UTF-16LE entries) and every parity byte recomputed with the reference GF(2^8). " +
-			"reader direction: reference-written sets with EVERY status bitmask over 1-4 (thorough 1-5) entries (>=1 saved; bit0 saved, bit1 checked) x comment {none, ASCII, binary, 1 KiB} x 3 name sets incl. surrogate pairs x EVERY subset of damaged saved files x EVERY subset of missing volumes, plus a volume with wrong parity data but valid hashes; real Verify(all data) and Repair. non-trivial = damaged set repaired / every write-direction case",
+			"reader direction: reference-written sets with EVERY status bitmask over 1-4 (thorough 1-5) entries (>=1 saved; bit0 saved, bit1 checked) x comment {none, ASCII, binary, 1 KiB} x 3 name sets incl. surrogate pairs x EVERY subset of damaged saved files x EVERY subset of missing volumes, plus a volume with wrong parity data but valid hashes; plus sets listing 90-300 additional non-saved files (total file counts around 99, 255, 256 and above); real Verify(all data) and Repair. non-trivial = damaged set repaired / every write-direction case",
 		Assumptions: []string{"files are numbered from 1 over the saved entries in list order (PAR 1.0 spec)", "non-saved entries are ignored by verification and never written"},
 		NewCase:     func() interface{} { return &c10Case{} },
 		Gen:         c10Gen,
